@@ -106,7 +106,7 @@ open Verif.Gen.ConcFacts
 
 /-- callees that receive a package-level slice/map and are known not to write through it -/
 def readOnlyCallees : List String :=
-  ["bytes.Equal#1", "bytes.HasPrefix#1", "bytes.Split#1", "c.w.Write#0", "m.w.Write#0", "w.Write#0", "m.write#0",
+  ["bytes.Equal#1", "isGlobalVar#1", "bytes.HasPrefix#1", "bytes.Split#1", "c.w.Write#0", "m.w.Write#0", "w.Write#0", "m.write#0",
    "m.MinifyMimetype#0", "m.MinifyMimetype#3", "parse.EqualFold#1", "parse.ReplaceEntities#1", "parse.ReplaceEntities#2",
    "parse.ReplaceMultipleWhitespaceAndEntities#1", "parse.ReplaceMultipleWhitespaceAndEntities#2"]
 
@@ -126,6 +126,9 @@ def factsOk : Bool :=
   nondet == ["minify.M.Reader: go", "minify.M.Writer: go", "minify.responseWriter.Write: go"] &&
   -- lock discipline of the registry
   lockUse == expectedLockUse &&
+  -- the registry's own fields are assigned only by the registration methods (which hold the write lock)
+  registryWrites == ["M.Add: m.literal[mimetype]", "M.AddCmd: m.literal[mimetype]", "M.AddCmdRegexp: m.pattern",
+    "M.AddFunc: m.literal[mimetype]", "M.AddFuncRegexp: m.pattern", "M.AddRegexp: m.pattern"] &&
   -- package-level slices are only handed to read-only callees …
   globalArgCallees.all (fun s => readOnlyCallees.contains s) &&
   -- … and appended to only at two known sites (cap == len is checked at run time through the hook)
